@@ -305,6 +305,33 @@ func Enumerate(corpus []*CorpusFile, tier string, seed uint64, visit func(idx in
 		}
 		return &Case{Property: "C16", Engine: "simio", Decoder: dec.Name, File: f.Name, Faults: faults, Data: data, Delivery: d}
 	}
+	// every file to every decoder of the OTHER formats as well (arbitrary bytes with a
+	// foreign structure), whole and cut at a stride
+	for _, f := range corpus {
+		f := f
+		for di := range Decoders {
+			dec := &Decoders[di]
+			own := false
+			for _, k := range dec.Kinds {
+				own = own || k == f.Kind || k == "plyhdr" && (f.Kind == "plymesh" || f.Kind == "plygen")
+			}
+			if own {
+				continue
+			}
+			hseed := choice.Derive(seed, "cross|"+f.Name+"|"+dec.Name)
+			stride := 13
+			if f.Big {
+				stride = 4099
+			}
+			for k := len(f.Data); k >= 0; k -= stride {
+				k := k
+				d := deliveryModes(k, choice.Derive(hseed, fmt.Sprint(k)))[int(choice.Derive(hseed, fmt.Sprint("m", k))%6)]
+				emit("CROSS", func() *Case {
+					return mkCase(dec, f, f.Data[:k], []string{fmt.Sprintf("FOREIGN-FORMAT(%s)", f.Kind), fmt.Sprintf("TRUNC@%d", k)}, d)
+				})
+			}
+		}
+	}
 	for _, f := range corpus {
 		f := f
 		kinds := []string{f.Kind}
